@@ -154,7 +154,7 @@ func c08(raw json.RawMessage, resp *drv.Response) error {
 			}
 		}
 	case "exp":
-		exps := []uint64{0, 1, 2, 3, 4, 7, 8, 255, 256, 65535, 65536, 1<<20 - 1, 1 << 20, ^uint64(0), 1 << 63}
+		exps := []uint64{0, 1, 2, 3, 4, 5, 6, 7, 8, 9, 10, 12, 22, 24, 100, 255, 256, 257, 1000, 65535, 65536, 65538, 1<<20 - 1, 1 << 20, 1<<20 + 1<<10, ^uint64(0), ^uint64(0) - 1, 1 << 63, 1<<63 + 2}
 		for i := 0; i < 10+req.NRandom; i++ {
 			exps = append(exps, uint64(rng.Intn(1<<20)), rng.Uint64())
 		}
